@@ -270,6 +270,10 @@ fn gen_hook_steps(g: &mut G, k: &Knobs, n: u64) -> Vec<Op> {
             0 | 1 => v.push(Op::Yield(g.range(1, 2) as u32)),
             2 | 3 | 4 => v.push(Op::Sleep(g.pick(&k.sleeps))),
             5 => v.push(Op::ConsumeBudget(g.range(1, 6) as u32)),
+            // fault-injecting profiles: a lifecycle hook that kills or stops its own actor (through the reference it was
+            // given) and then goes on - returns an error, say - in the same poll
+            6 if k.h_killself > 0 && g.chance(400) => v.push(Op::KillSelf),
+            7 if k.h_killself > 0 && g.chance(250) => v.push(Op::StopSelf),
             _ => v.push(Op::Yield(1)),
         }
     }
